@@ -179,7 +179,8 @@ func (ex *Exec) applyContract(fr *Frame, fn *ssa.Function, ct *Contract, args []
 	post = resultVars(post, fn.Signature, ret)
 	post = ex.bindLets(post, ct.Lets, &errs)
 	for _, en := range ct.Ensures {
-		if en.Stretch {
+		if en.Stretch || strings.Contains(en.Src, "$") {
+			// clauses about the callee's own ghost call history are proved for the callee but say nothing to callers
 			continue
 		}
 		c, err := post.EvalBool(en.Expr)
@@ -188,6 +189,10 @@ func (ex *Exec) applyContract(fr *Frame, fn *ssa.Function, ct *Contract, args []
 			continue
 		}
 		st.Assume(c)
+	}
+	if ex.specMode == 0 {
+		// vacuity guard: the assumed contract must not contradict what is known at the call site
+		ex.covers = append(ex.covers, &ObRecord{Name: ex.fnPrefix + "#cover:after-call:" + fn.Name(), Kind: "cover", PC: st.PC(), Cond: True})
 	}
 	for _, m := range errs {
 		ex.unsupp("contract %s: %s", ct.Func, m)
